@@ -97,8 +97,35 @@ Definition burst_check (input observed : sx) : verdict :=
   | _, _ => VBad
   end.
 
+(* never-started endpoint: input = (6 origin (op ...) seed), op 1 Close, 2 ForceClose, 3 SendPacket, 4 Go
+   observed = ((code ...) eof panics inconclusive); every call returns (code 7: parked inside the
+   call), none panics, SendPacket is refused unless the endpoint is running, and once started and
+   closed the peer sees the stream end *)
+Fixpoint unstarted_sends_ok (started closed : bool) (ops codes : list Z) : bool :=
+  match ops, codes with
+  | op :: ops', c :: codes' =>
+      let ok := if op =? 3 then (if started && negb closed then (c =? 10) || (c =? 12) else c =? 11) else true in
+      ok && unstarted_sends_ok (started || (op =? 4)) (closed || (started && ((op =? 1) || (op =? 2)))) ops' codes'
+  | _, _ => true
+  end.
+
+Definition unstarted_check (input observed : sx) : verdict :=
+  match input, observed with
+  | SList [SInt _; SInt _; ops; SInt _], SList [codes; SInt eof; SInt panics; SInt inconcl] =>
+      match sx_ints ops, sx_ints codes with
+      | Some ops, Some codes =>
+          vjoin (check_that ((panics =? 0) && forallb (fun c => negb (c =? 3)) codes) (VPropFail 1))
+         (vjoin (check_that (forallb (fun c => negb (c =? 7)) codes) (VPropFail 2))
+         (vjoin (check_that (negb (inconcl =? 0) || unstarted_sends_ok false false ops codes) (VPropFail 3))
+                (check_that (negb (inconcl =? 0) || (eof =? -1) || (eof =? 1)) (VPropFail 6))))
+      | _, _ => VBad
+      end
+  | _, _ => VBad
+  end.
+
 Definition check (c : sx) : verdict :=
   match c with
+  | SList [SList (SInt 6 :: _) as input; observed] => unstarted_check input observed
   | SList [SList (SInt 2 :: _) as input; observed] => listener_check input observed
   | SList [SList (SInt 3 :: _) as input; observed] => burst_check input observed
   | SList [input; observed] =>
